@@ -22,7 +22,7 @@ import models as _models                # noqa
 import chars as C                       # noqa
 
 VERIF = os.path.dirname(HERE)
-BUILD = os.path.join(VERIF, 'build')
+BUILD = os.environ.get('VERIF_BUILD') or os.path.join(VERIF, 'build')     # VERIF_BUILD: a private scratch dir for development runs
 REPO = os.environ.get('VERIF_REPO', '/repo')
 TOOLCHAIN = '1.93'
 
